@@ -357,7 +357,9 @@ func (f *Frame) havocCall(st *execState, name string, args []Val, rtype types.Ty
 	}
 	if writes {
 		f.frameCheckAll(st, pos, "call to unmodelled "+name)
+		before := st.mem
 		st.mem = e.mc.HavocAll("mem.after." + sanitize(name))
+		f.keepLocals(st, before, nil)
 		st.gh = e.freshGhost(".after." + sanitize(name))
 	}
 	return f.freshResult(st, name, rtype, hint)
@@ -501,11 +503,63 @@ func (f *Frame) modularCall(st *execState, fn *ssa.Function, name string, con *C
 				st.gh = st.gh.withMem(d.ghost, e.mc.HavocRange(st.gh.mm[d.ghost], d.lo, d.n, "ghost."+d.ghost+"."+sanitize(shortCallee(name))))
 			}
 		}
+		// the callee may call the function values passed for the parameters
+		// named in "calls": their declared frames are part of its effect
+		for _, pn := range con.Calls {
+			idx := -1
+			if fn != nil {
+				for i, p := range fn.Params {
+					if p.Name() == pn {
+						idx = i
+					}
+				}
+			}
+			for i, p := range con.Params {
+				if p.Name == pn && idx < 0 {
+					idx = i
+				}
+			}
+			var fv FuncV
+			ok := false
+			if idx >= 0 && idx < len(args) {
+				fv, ok = args[idx].(FuncV)
+			}
+			cfn, _ := fv.Fn.(*ssa.Function)
+			var cc *Contract
+			if ok && cfn != nil {
+				cc = e.contractFor(fnName(cfn))
+			}
+			if cc == nil || !cc.HasMod {
+				f.frameCheckAll(st, pos, "callee "+name+" calls "+pn+", which has no declared frame")
+				before := st.mem
+				st.mem = e.mc.HavocAll("mem.after." + sanitize(shortCallee(name)))
+				f.keepLocals(st, before, nil)
+				st.gh = e.freshGhost(".after." + sanitize(shortCallee(name)))
+				continue
+			}
+			e.trusted["frame of closure "+fnName(cfn)+" (called by "+name+") is taken from its contract"] = true
+			csc := &Scope{e: e, vars: map[string]SV{}, mem: st.mem, oldMem: st.mem, gh: st.gh, oldGh: st.gh, pkg: cfn.Pkg.Pkg}
+			for i, v := range cfn.FreeVars {
+				if i < len(fv.Free) {
+					csc.vars[v.Name()] = e.svOf(fv.Free[i], v.Type())
+				}
+			}
+			for _, m := range cc.Modifies {
+				csc.goal = false
+				d := e.evalDesignator(csc, m.Expr, m.Text)
+				f.frameCheckD(st, d, pos, "closure "+fnName(cfn)+" (called by "+name+") modifies "+m.Text)
+				if d.ghost == "" {
+					st.mem = e.mc.HavocRange(st.mem, d.lo, d.n, "mem."+sanitize(shortCallee(name))+"."+pn)
+				}
+			}
+		}
 	} else if fn != nil && e.bodyIsPure(fn, 0) {
 		// no writes
 	} else {
 		f.frameCheckAll(st, pos, "call to "+name+" (no modifies clause)")
+		before := st.mem
 		st.mem = e.mc.HavocAll("mem.after." + sanitize(shortCallee(name)))
+		f.keepLocals(st, before, nil)
 		st.gh = e.freshGhost(".after." + sanitize(shortCallee(name)))
 	}
 	st.st.cut = true
